@@ -3,15 +3,17 @@ import OsacaVerif.Driver.Roles
 import OsacaVerif.Driver.Pipeline
 import OsacaVerif.Model.EndToEnd
 import OsacaVerif.Gen.IsaDb_x86
+import OsacaVerif.Gen.IsaDb_aarch64
 /-
   Driver op of the end-to-end model (`Model/EndToEnd.lean`): from file text to the report.
 
-    e2e.x86 <model:Y> <stlf> <pidx> <mode M|L> <mode argument> <flagdeps 0|1> <ignore-unknown 0|1>
+    e2e.x86 | e2e.a64
+            <model:Y> <stlf> <pidx> <mode M|L> <mode argument> <flagdeps 0|1> <ignore-unknown 0|1>
             <version> <file name> <arch> <time stamp> <file text>
 
   `<model>` is the raw YAML of the machine model (the keys `Driver/C07.lean: mmodelOf` reads: ports,
   instruction_forms, load/store tables, defaults, multipliers, load_latency); the ISA database is the
-  generated `Gen.isaDbX86` (tied to `isa/x86.yml` by C03's `rolesdbcmp`).
+  generated `Gen.isaDbX86` / `Gen.isaDbA64` (tied to `isa/x86.yml` / `isa/aarch64.yml` by C03's `rolesdbcmp`).
 
   Reply: `parse-error <line>` | `sem-error <line> <exception class>` | `badisa` | `raise` | `badlines` | `empty` |
   `load-error` | the sections of `pipe.run` followed by
@@ -105,30 +107,35 @@ def showExtra (r : Result) : String :=
       toString x.line ++ ":" ++ String.join (x.used.map boolS)) ++
   " report=" ++ enc r.text
 
+def run (isa : Operand.Isa) (db : List Isa.IsaEntry) (model stlf pidx mode marg fd iu version fname arch stamp text : List Char) : String :=
+  match decodeY model with
+  | none => "bad-request"
+  | some y =>
+    match Driver.C07.mmodelOf isa y with
+    | none => "load-error"
+    | some mm =>
+      let m : Model := { mm := mm, par := { stlf := DGraph.ratOf stlf, pIdx := DGraph.ratOf pidx }, isaDb := db }
+      let o : Opts :=
+        { mode := if fieldS mode == "L" then .lines (field marg) else .markers (field marg)
+          flagDeps := fieldS fd == "1", ignoreUnknown := fieldS iu == "1"
+          version := field version, file := field fname, arch := field arch, stamp := field stamp
+          repr := pyRepr }
+      match analyse isa m o (field text) with
+      | .ok res => Driver.Pipeline.showAnalysis res.analysis ++ showExtra res
+      | .parseError n _ => "parse-error " ++ toString n
+      | .semError n (.tplt e) => "sem-error " ++ toString n ++ " " ++ Driver.C07.errName e
+      | .semError n (.changes e) => "sem-error " ++ toString n ++ " " ++ Driver.Roles.errS e
+      | .badIsa => "badisa"
+      | .raised => "raise"
+      | .badLines => "badlines"
+      | .emptyKernel => "empty"
+
 def handle (r : Req) : Option String :=
   match r.op, r.args with
   | "e2e.x86", [model, stlf, pidx, mode, marg, fd, iu, version, fname, arch, stamp, text] =>
-    some (match decodeY model with
-      | none => "bad-request"
-      | some y =>
-        match Driver.C07.mmodelOf .x86 y with
-        | none => "load-error"
-        | some mm =>
-          let m : Model := { mm := mm, par := { stlf := DGraph.ratOf stlf, pIdx := DGraph.ratOf pidx }, isaDb := Gen.isaDbX86 }
-          let o : Opts :=
-            { mode := if fieldS mode == "L" then .lines (field marg) else .markers (field marg)
-              flagDeps := fieldS fd == "1", ignoreUnknown := fieldS iu == "1"
-              version := field version, file := field fname, arch := field arch, stamp := field stamp
-              repr := pyRepr }
-          match analyseX86 m o (field text) with
-          | .ok res => Driver.Pipeline.showAnalysis res.analysis ++ showExtra res
-          | .parseError n _ => "parse-error " ++ toString n
-          | .semError n (.tplt e) => "sem-error " ++ toString n ++ " " ++ Driver.C07.errName e
-          | .semError n (.changes e) => "sem-error " ++ toString n ++ " " ++ Driver.Roles.errS e
-          | .badIsa => "badisa"
-          | .raised => "raise"
-          | .badLines => "badlines"
-          | .emptyKernel => "empty")
+    some (run .x86 Gen.isaDbX86 model stlf pidx mode marg fd iu version fname arch stamp text)
+  | "e2e.a64", [model, stlf, pidx, mode, marg, fd, iu, version, fname, arch, stamp, text] =>
+    some (run .a64 Gen.isaDbA64 model stlf pidx mode marg fd iu version fname arch stamp text)
   | "e2e.repr", [q] =>
     some (match parseRat? (field q) with
       | some x => enc (pyRepr x)
